@@ -8,6 +8,23 @@ from .src import Source
 
 # (name, program text defining RESULT or raising, expected repr of RESULT / "raise <Exc>")
 PROGRAMS = [
+    ("inspect-signature-of-functions-lambdas-and-methods", '''
+import inspect
+def f(a, b=2, *rest, key, opt=None, **more):
+    pass
+class K:
+    def m(self, x, y=1):
+        pass
+    def __call__(self, e):
+        pass
+g = lambda e, kind="k": kind
+def count(fn):
+    ps = inspect.signature(fn).parameters.values()
+    return len([p for p in ps if p.kind in (p.POSITIONAL_ONLY, p.POSITIONAL_OR_KEYWORD)])
+sig = inspect.signature(f)
+RESULT = (list(sig.parameters), [p.kind == inspect.Parameter.VAR_POSITIONAL for p in sig.parameters.values()], sig.parameters["a"].default is inspect.Parameter.empty,
+          sig.parameters["b"].default, count(g), count(K().m), count(K()), count(lambda e: e))
+''', "(['a', 'b', 'rest', 'key', 'opt', 'more'], [False, False, True, False, False, False], True, 2, 2, 2, 1, 1)"),
     ("nan-is-identical-to-itself-but-not-equal", '''
 nan = float("nan")
 box = [nan]
